@@ -29,6 +29,37 @@ def make_workload(rng: random.Random):
     return wl
 
 
+def designed_workloads():
+    """Workloads that are CONSTRUCTED rather than drawn: which code path a take exercises depends on the knobs (a concurrency
+    cap of 1 or a tight budget serialises the writes; without budget pressure nothing ever waits for staging; the batcher is
+    bypassed only above the slab threshold), so every sweep starts with one workload per corner and only then draws more.
+    Detection of a defect confined to one corner must not depend on the seed."""
+    def ranks(*privs, extra=()):
+        return [{"priv": list(p), "extra_key": i in extra, "prim": 11 * (i + 1)} for i, p in enumerate(privs)]
+    base = {"batching": False, "chunk": None, "replicated": False, "conc": None, "budget": None, "slab": None, "shared_len": 8}
+    return [
+        # several writes of one rank in flight in the background phase (cap 2; default cap)
+        dict(base, W=2, conc=2, ranks=ranks([3, 5, 2, 7, 4, 6], [2, 2, 3], extra=(1,))),
+        dict(base, W=3, chunk=16, replicated=True, shared_len=20, ranks=ranks([2, 9], [4, 4, 4, 8, 1], [1], extra=(2,))),
+        # budget pressure: requests wait for budget while earlier ones are staged and written (tight and moderate budget)
+        dict(base, W=2, budget=16, ranks=ranks([3, 5, 2, 7, 4, 6], [6, 1, 6])),
+        dict(base, W=2, budget=64, conc=1, replicated=True, ranks=ranks([9, 9, 2, 5], [1, 8, 8, 3, 3], extra=(0,))),
+        # batcher on: slabs, with some entries above the slab threshold bypassing it; chunked entries next to slabs
+        dict(base, W=2, batching=True, slab=24, conc=2, ranks=ranks([1, 9, 2, 7, 1], [5, 5, 1])),
+        dict(base, W=3, batching=True, slab=8, chunk=16, replicated=True, budget=64, shared_len=20, ranks=ranks([1, 1, 4], [2], [7, 1], extra=(1,))),
+        # one rank only
+        dict(base, W=1, batching=True, ranks=ranks([1, 2, 3, 4])),
+    ]
+
+
+def workloads(rng, n):
+    """the designed workloads, then n drawn ones"""
+    for wl in designed_workloads():
+        yield wl
+    for _ in range(n):
+        yield make_workload(rng)
+
+
 def build_state(wl, r, fill=True):
     import torch
     from torchsnapshot import StateDict
